@@ -8,7 +8,9 @@ an inactive offer gets inactive. The answer never sends where the offer did not 
 receives where the offer did not agree to send."
 
 Quantifier: histories of local transceiver direction/track changes and remote re-offers whose per-section
-directions range over sendrecv / sendonly / recvonly / inactive (or no direction attribute at all), including
+directions range over sendrecv / sendonly / recvonly / inactive (or no direction attribute at all, which
+RFC 3264 §5.1 reads as sendrecv and, since `fix: treat a remote m-section without a direction attribute as
+sendrecv`, so does the code), including
 direction changes in renegotiation.  Here: ALL finite histories over `Directions.Op` — AddTrack, RemoveTrack,
 AddTransceiverFromKind, RTPTransceiver.Stop, RTPTransceiver.SetSender (called directly),
 SetRemoteDescription(offer) with arbitrary sections, CreateAnswer, SetLocalDescription(answer),
@@ -50,14 +52,16 @@ theorem C08_answerDirection_legal (offered loc : Dir) :
 
 /-! ### the statement -/
 
-/-- Positional form, no hypothesis needed: the answer goes through the offer's m-sections in order, skips
-    those without a direction attribute (C07's subject) and answers each of the others with a section that
-    has its mid and a direction legal for the offered one. -/
+/-- Positional form, no hypothesis needed: the answer goes through the offer's m-sections in order and
+    answers each one with a section that has its mid and a direction legal for the offered one (`legalOpt`:
+    an offered section without direction attribute means sendrecv, every answer is legal). -/
 inductive OneForOne : List Sec → List Sec → Prop
   | nil : OneForOne [] []
-  | skip {s : Sec} {off ans : List Sec} : s.dir = none → OneForOne off ans → OneForOne (s :: off) ans
-  | cons {s a : Sec} {off ans : List Sec} (od ad : Dir) : s.dir = some od → a.mid = s.mid → a.dir = some ad →
-      legal od ad = true → OneForOne off ans → OneForOne (s :: off) (a :: ans)
+  | cons {s a : Sec} {off ans : List Sec} (ad : Dir) : a.mid = s.mid → a.dir = some ad →
+      legalOpt s.dir ad = true → OneForOne off ans → OneForOne (s :: off) (a :: ans)
+
+theorem legalOpt_eq (d : Option Dir) (a : Dir) : legalOpt d a = legal (effDir d) a := by
+  cases d <;> rfl
 
 /-- For the by-mid form (what the harness judges): a remote offer does not use the same mid for two
     m-sections (RFC 5888 / RFC 8843: mids identify m-sections). -/
@@ -74,7 +78,7 @@ instance (ops : List Op) : Decidable (WF ops) := by unfold WF; infer_instance
     `WF`). -/
 def AnswerLegal (off ans : List Sec) : Prop :=
   ∀ a ∈ ans, (∃ o ∈ off, o.mid = a.mid) ∧
-    ∀ o ∈ off, o.mid = a.mid → ∃ od ad, o.dir = some od ∧ a.dir = some ad ∧ legal od ad = true
+    ∀ o ∈ off, o.mid = a.mid → ∃ ad, a.dir = some ad ∧ legalOpt o.dir ad = true
 
 /-- the property for a PeerConnection with adjustment switch `adj` and CreateAnswer narrowing `nar` -/
 def FullFor (adj nar : Dir → Dir → Dir) : Prop :=
@@ -86,8 +90,8 @@ theorem oneForOne_of_answersBy {f : Dir → Dir → Dir} (hf : ∀ d l, legal d 
     {off ans : List Sec} (h : AnswersBy f off ans) : OneForOne off ans := by
   induction h with
   | nil => exact .nil
-  | skip hd _ ih => exact .skip hd ih
-  | cons d l hd hm hdir _ ih => exact .cons d (f d l) hd hm hdir (hf d l) ih
+  | @cons s a off ans l hm hdir _ ih =>
+    exact .cons (f (effDir s.dir) l) hm hdir (by rw [legalOpt_eq]; exact hf _ l) ih
 
 theorem log_step {adj nar : Dir → Dir → Dir} (hn : ∀ d l, legal d (nar d l) = true) (s : Pc) (o : Op)
     (h : ∀ p ∈ s.log, OneForOne p.1 p.2) : ∀ p ∈ (stepWith adj nar s o).1.log, OneForOne p.1 p.2 := by
@@ -155,7 +159,7 @@ theorem C08_Full_positional (ops : List Op) : ∀ p ∈ (run {} ops).log, OneFor
 /-! ### by-mid form: the invariant -/
 
 /-- Invariant of every reachable state: all answers created so far are legal, and while a remote offer is
-    pending its sections have distinct mids and each one that carries a direction has a transceiver carrying
+    pending its sections have distinct mids and each one has a transceiver carrying
     its mid. -/
 structure Good (s : Pc) : Prop where
   log : ∀ p ∈ s.log, AnswerLegal p.1 p.2
@@ -186,12 +190,12 @@ private theorem distinct_mid_inj : ∀ {off : List Sec}, Distinct off → ∀ {o
 theorem answerLegal_of_answersBy {f : Dir → Dir → Dir} (hf : ∀ d l, legal d (f d l) = true)
     {off ans : List Sec} (hd : Distinct off) (h : AnswersBy f off ans) : AnswerLegal off ans := by
   intro a ha
-  obtain ⟨sec, hsec, hmid, d, l, h1, h2⟩ := h.mem a ha
+  obtain ⟨sec, hsec, hmid, l, h2⟩ := h.mem a ha
   refine ⟨⟨sec, hsec, hmid⟩, ?_⟩
   intro o ho hom
   have : o = sec := distinct_mid_inj hd ho hsec (hom.trans hmid.symm)
   subst this
-  exact ⟨d, f d l, h1, h2, hf d l⟩
+  exact ⟨f (effDir o.dir) l, h2, by rw [legalOpt_eq]; exact hf _ l⟩
 
 theorem good_step {adj nar : Dir → Dir → Dir} (hadj : AdjOK adj) (hn : ∀ d l, legal d (nar d l) = true)
     (s : Pc) (o : Op) (hwf : wfOp o = true) (hg : Good s) : Good (stepWith adj nar s o).1 := by
@@ -307,7 +311,7 @@ theorem C08_full_for_any_legal_narrowing (adj nar : Dir → Dir → Dir) (hadj :
   fun ops hwf => (good_run hadj hn ops {} hwf good_init).log
 
 /-- **C08**: for every history, every m-section of every answer CreateAnswer produces corresponds (same mid)
-    to an offered m-section that carries a direction, and its direction is one RFC 3264 §6.1 permits for the
+    to an offered m-section, and its direction is one RFC 3264 §6.1 permits for the
     offered direction. -/
 theorem C08_Full (ops : List Op) (hwf : WF ops) : ∀ p ∈ (run {} ops).log, AnswerLegal p.1 p.2 :=
   C08_full_for_any_legal_narrowing adjust narrow adjust_ok narrow_legal ops hwf
@@ -316,11 +320,12 @@ theorem C08_Full (ops : List Op) (hwf : WF ops) : ∀ p ∈ (run {} ops).log, An
     section receives, and none receives unless the offered section sends. -/
 theorem C08_never_sends_unreceived (ops : List Op) (hwf : WF ops) (off ans : List Sec)
     (hp : (off, ans) ∈ (run {} ops).log) (a : Sec) (ha : a ∈ ans) :
-    ∃ o ∈ off, o.mid = a.mid ∧ ∃ od ad, o.dir = some od ∧ a.dir = some ad ∧
-      (sends ad = true → recvs od = true) ∧ (recvs ad = true → sends od = true) := by
+    ∃ o ∈ off, o.mid = a.mid ∧ ∃ ad, a.dir = some ad ∧
+      (sends ad = true → recvs (effDir o.dir) = true) ∧ (recvs ad = true → sends (effDir o.dir) = true) := by
   obtain ⟨⟨o, ho, hm⟩, hall⟩ := C08_Full ops hwf (off, ans) hp a ha
-  obtain ⟨od, ad, h1, h2, h3⟩ := hall o ho hm
-  exact ⟨o, ho, hm, od, ad, h1, h2, (C08_legal_iff_send_recv od ad).mp h3⟩
+  obtain ⟨ad, h2, h3⟩ := hall o ho hm
+  rw [legalOpt_eq] at h3
+  exact ⟨o, ho, hm, ad, h2, (C08_legal_iff_send_recv _ ad).mp h3⟩
 
 /-- what CreateAnswer does in a state with a pending offer `off` -/
 private theorem createAnswer_eq (s : Pc) (off : List Sec) (hs : s.sig = .haveRemoteOffer)
@@ -336,11 +341,11 @@ private theorem createAnswer_eq (s : Pc) (off : List Sec) (hs : s.sig = .haveRem
   rfl
 
 /-- The answer is not legal by being empty: whenever a remote offer is pending, CreateAnswer succeeds and
-    answers every offered section that carries a direction attribute. -/
+    answers every offered section. -/
 theorem C08_answer_covers_offer (ops : List Op) (hwf : WF ops)
     (hs : (run {} ops).sig = .haveRemoteOffer) :
     ∃ off ans, (run {} ops).remoteDesc = some off ∧ (step (run {} ops) .createAnswer).2 = .desc ans ∧
-      ∀ sec ∈ off, sec.dir.isSome = true → ∃ a ∈ ans, a.mid = sec.mid := by
+      ∀ sec ∈ off, ∃ a ∈ ans, a.mid = sec.mid := by
   have hg : Good (run {} ops) := good_run adjust_ok narrow_legal ops {} hwf good_init
   generalize run {} ops = s at *
   obtain ⟨off, h1, h2, h3⟩ := hg.window hs
@@ -363,7 +368,7 @@ theorem C08_current_direction_legal (ops : List Op) (hwf : WF ops)
     (step (step (run {} ops) .createAnswer).1 .setLocalAnswer).1.sig = .stable ∧
     ∀ a ∈ ans, ∃ t c,
       (step (step (run {} ops) .createAnswer).1 .setLocalAnswer).1.trs.find? (hasMid a.mid) = some t ∧
-      t.cur = some c ∧ ∀ o ∈ off, o.mid = a.mid → ∃ od, o.dir = some od ∧ legal od c = true := by
+      t.cur = some c ∧ ∀ o ∈ off, o.mid = a.mid → legalOpt o.dir c = true := by
   have hg : Good (run {} ops) := good_run adjust_ok narrow_legal ops {} hwf good_init
   generalize run {} ops = s at *
   obtain ⟨off', h1, h2, _⟩ := hg.window hs
@@ -382,7 +387,7 @@ theorem C08_current_direction_legal (ops : List Op) (hwf : WF ops)
     have hres := matchedLoop_result (some narrow) off (Work.ofList s.trs) ans' h2 (noTakenMid_ofList _ off) hm
     have hdist : Distinct ans' := by
       unfold Distinct at h2 ⊢
-      exact hby.sublist.nodup h2
+      rw [hby.mids]; exact h2
     have hcar : ∀ sec ∈ ans',
         ((Work.toList (matchedLoop (some narrow) (Work.ofList s.trs) off).2).find? (hasMid sec.mid)).isSome
           = true := by
@@ -395,9 +400,10 @@ theorem C08_current_direction_legal (ops : List Op) (hwf : WF ops)
     rw [g1] at ht; cases ht
     refine ⟨_, curDirOf false t0.dir t0.sender, g2, by simp [setCur, hdir], ?_⟩
     intro o ho hom
-    obtain ⟨od, ad, e1, e2, e3⟩ := (hleg a ha).2 o ho hom
+    obtain ⟨ad, e2, e3⟩ := (hleg a ha).2 o ho hom
     rw [hdir] at e2; cases e2
-    exact ⟨od, e1, curDirOf_answer_legal od t0.dir t0.sender e3⟩
+    rw [legalOpt_eq] at e3 ⊢
+    exact curDirOf_answer_legal _ t0.dir t0.sender e3
 
 /-- Right after SetRemoteDescription(offer), the transceiver of every offered section already holds a legal
     direction — the state the harness observes through `Direction()`. -/
@@ -573,9 +579,9 @@ theorem C08_defect_before_fix : ¬ FullFor adjustOld noNarrow := by
         (runWith adjustOld noNarrow {} witnessOld).log := by
     decide
   obtain ⟨_, hall⟩ := h witnessOld hw _ hlog _ (List.mem_singleton.mpr rfl)
-  obtain ⟨od, ad, h1, h2, h3⟩ := hall _ (List.mem_singleton.mpr rfl) rfl
-  simp only [Option.some.injEq] at h1 h2
-  subst h1; subst h2
+  obtain ⟨ad, h2, h3⟩ := hall _ (List.mem_singleton.mpr rfl) rfl
+  simp only [Option.some.injEq] at h2
+  subst h2
   exact absurd h3 (by decide)
 
 /-- a `sendonly` offer, then RTPTransceiver.SetSender on the new recvonly transceiver, then CreateAnswer -/
@@ -592,9 +598,9 @@ theorem C08_defect_direct_set_sender : ¬ FullFor adjust noNarrow := by
         (runWith adjust noNarrow {} witnessSetSender).log := by
     decide
   obtain ⟨_, hall⟩ := h witnessSetSender hw _ hlog _ (List.mem_singleton.mpr rfl)
-  obtain ⟨od, ad, h1, h2, h3⟩ := hall _ (List.mem_singleton.mpr rfl) rfl
-  simp only [Option.some.injEq] at h1 h2
-  subst h1; subst h2
+  obtain ⟨ad, h2, h3⟩ := hall _ (List.mem_singleton.mpr rfl) rfl
+  simp only [Option.some.injEq] at h2
+  subst h2
   exact absurd h3 (by decide)
 
 /-- the same histories on the repaired code answer `recvonly` -/
@@ -632,7 +638,8 @@ example : noSetSenderInWindow {} sample = true := by decide
 example : (run {} sample).log.map (·.2) =
     [[{ mid := 0, kind := .audio, dir := some .sendrecv }, { mid := 1, kind := .video, dir := some .sendonly }],
      [{ mid := 0, kind := .audio, dir := some .recvonly }, { mid := 1, kind := .video, dir := some .inactive }],
-     [{ mid := 0, kind := .audio, dir := some .inactive }]] := by decide
+     [{ mid := 1, kind := .video, dir := some .recvonly }, { mid := 0, kind := .audio, dir := some .inactive }]] := by
+  decide
 
 example : (run {} sample).sig = .haveRemoteOffer := by decide
 
